@@ -45,6 +45,11 @@ CLAIMED = {
    note='Trusted: Lean kernel + standard axioms; SipHash injectivity on the URIs in play (disjoint key sets per service name); transport exercised, not modelled.',
    technique='Lean 4 proof (invariant over registry histories, refinement to a last-event spec) + model/implementation correspondence check',
    ref='§8 C13'),
+ 'C14': dict(
+   text='Lean 4 theorems about a protocol-level model of one RPC path (RpcNet: client send_inner with one stream per request, optional timeout and error mapping; an at-most-once stream transport that may lose or delay; server dispatch and handler; replies matched to their stream): protocol_runs_satisfy_spec — EVERY run of the model (any length, any interleaving of any number of requests, any placement of losses, delays, timeouts, connection errors) satisfies the trace specification Spec: each completion is the reply the handler computed for that very request or a connection/timeout error (timeout only when configured), no call completes twice, no handler runs twice or unasked, no reply without a handler run, and with a timeout configured the call returns by send+tau+slack. The model is tied to the code by trace inclusion: every event trace observed on the real RpcClient/Server running over turmoil (feature `simulation`) under seeded partition/hold/release/repair schedules must be accepted by the model (accepted_trace_satisfies_spec) and by the independently verified monitor (monitor_sound/complete). PARTIAL: the behaviour of hyper/h2/turmoil assumed by the model is checked on sampled schedules, not proved.',
+   note='Partial: schedules are sampled (160 quick / 8000 thorough simulations). Trusted: Lean kernel + standard axioms; dcsim trace recording; slack 25 ms on the timeout bound (turmoil tick + latency). Defect D14 (concurrent first requests panicked in LazyClient) found by this check and fixed.',
+   technique='Lean 4 proof (invariant over all runs of a labelled transition system; verified trace monitor) + trace-inclusion correspondence check against the real code under a deterministic network simulator',
+   ref='§8 C14'),
  'C15': dict(
    text='Lean 4 theorems about the executable model of NodeCycler, select_n_nodes, DCAwareSelector::select_nodes and the selector actor: select_sound (for every well-formed layout, local position, level, cursor state = every history of earlier selections, and every outcome of the random choice: an Ok result has no duplicates, excludes the local node, lies in the installed layout, has at least the required size and exactly n for One/Two/Three; never panics; never changes the layout), after_update_only_current (after a membership update every later answer, cached or fresh, lies in the updated layout: departed nodes and data centres are never selected again). Completeness (NotEnoughNodes only when too few peers) is REFUTED for the unchanged code by extra_skip_counterexample (decide) and replayed on the implementation: known finding D11. Tied to the code through the real selector actor with the random DC choice recorded by a hook.',
    note='Known finding D11 (select_n_nodes extra-node loop) is reported as KNOWN-FINDING; completeness is proved for no level and claimed for none (None/All/LocalQuorum/EachQuorum never fail by construction). Trusted: Lean kernel + standard axioms; layouts well-formed (distinct DC names, unique addresses, local node in its own DC); 2 s cache expiry exercised only by sleeping cases.',
